@@ -812,37 +812,62 @@ pub fn run(tier: Tier, seed: u64, findings: &Findings) -> i32 {
     let cfg = RunCfg { prop: "C12", tier, seed };
     let check = C12;
     let mut report = super::run_regress(&check, &cfg, findings);
-    // exhaustive part
+    // exhaustive part, streamed in blocks of code points (the thorough tier has ~1.7e8 probes: never all in memory)
     let cps = code_points(tier, seed);
-    let mut probes: Vec<Probe> = vec![];
     let full_succ_below: u32 = tier.pick(0x800, 0x3000);
-    for &c in &cps {
-        for ctx in Ctx::ALL {
-            for &form in forms_of(ctx) {
-                let succs: Vec<Option<char>> = if (c as u32) < full_succ_below || matches!(c as u32, 0x2028 | 0x2029 | 0xfeff) {
-                    SUCCESSORS.to_vec()
-                } else {
-                    // one rotating successor besides none
-                    vec![None, SUCCESSORS[1 + (c as usize) % (SUCCESSORS.len() - 1)]]
-                };
-                for s in succs {
-                    if let Some(p) = exhaustive_probe(ctx, form, c, s) {
-                        // a forced form that the character does not need in this context is still a distinct spelling
-                        probes.push(p);
+    let key = |p: &Probe| (p.ctx as u8, p.verbatim.is_some(), p.chars.get(1).map(|x| x.1 as u8).unwrap_or(0), p.chars.len(), p.chars.get(2).map(|x| x.0 as u32).unwrap_or(0));
+    let chunk_cases = |mut probes: Vec<Probe>| -> Vec<Case> {
+        // unique-name contexts must not repeat a payload inside one template: group by (ctx, form, successor) so that
+        // one template holds different code points
+        probes.sort_by_key(key);
+        let mut cases: Vec<Case> = vec![];
+        let mut i = 0;
+        while i < probes.len() {
+            let k = key(&probes[i]);
+            let mut j = i;
+            while j < probes.len() && key(&probes[j]) == k && j - i < 400 {
+                j += 1;
+            }
+            cases.push(Case { probes: probes[i..j].to_vec() });
+            i = j;
+        }
+        cases
+    };
+    let mut total_probes = 0u64;
+    for block in cps.chunks(tier.pick(2048, 8192)) {
+        let mut probes: Vec<Probe> = vec![];
+        for &c in block {
+            for ctx in Ctx::ALL {
+                for &form in forms_of(ctx) {
+                    let succs: Vec<Option<char>> = if (c as u32) < full_succ_below || matches!(c as u32, 0x2028 | 0x2029 | 0xfeff) {
+                        SUCCESSORS.to_vec()
+                    } else {
+                        // one rotating successor besides none
+                        vec![None, SUCCESSORS[1 + (c as usize) % (SUCCESSORS.len() - 1)]]
+                    };
+                    for s in succs {
+                        if let Some(p) = exhaustive_probe(ctx, form, c, s) {
+                            probes.push(p);
+                        }
                     }
                 }
             }
+        }
+        total_probes += probes.len() as u64;
+        report.merge(engine::run_explicit(&check, &cfg, chunk_cases(probes), 1, 16, findings));
+        if !report.violations.is_empty() || !report.errors.is_empty() {
+            break;
         }
     }
     // named entities against Python's html5 table
     let table_path = format!("{}/data/html5_entities.json", crate::jsworker::verif_root());
     let mut named = 0;
+    let mut probes: Vec<Probe> = vec![];
     if let Ok(text) = std::fs::read_to_string(&table_path) {
         if let Ok(Value::Object(m)) = serde_json::from_str::<Value>(&text) {
             for (name, val) in m {
                 let Some(val) = val.as_str() else { continue };
                 for ctx in [Ctx::Text, Ctx::AttrDq] {
-                    // `&lt;` etc. denote syntax characters: still static text
                     let chars: Vec<(char, Form)> = format!("x{}y", val).chars().map(|c| (c, Form::Raw)).collect();
                     if chars.windows(2).any(|w| w[0].0 == '{' && w[1].0 == '{') {
                         continue;
@@ -855,25 +880,11 @@ pub fn run(tier: Tier, seed: u64, findings: &Findings) -> i32 {
     } else {
         report.errors.push(format!("cannot read {}", table_path));
     }
-    report.extra.insert("exhaustive_probes".into(), json!(probes.len()));
+    total_probes += probes.len() as u64;
+    report.merge(engine::run_explicit(&check, &cfg, chunk_cases(probes), 1, 16, findings));
+    report.extra.insert("exhaustive_probes".into(), json!(total_probes));
     report.extra.insert("code_points".into(), json!(cps.len()));
     report.extra.insert("named_entity_probes".into(), json!(named));
-    // unique-name contexts must not repeat a payload inside one template: group by (ctx, form, successor) so that one
-    // template holds different code points
-    let key = |p: &Probe| (p.ctx as u8, p.verbatim.is_some(), p.chars.get(1).map(|x| x.1 as u8).unwrap_or(0), p.chars.len(), p.chars.get(2).map(|x| x.0 as u32).unwrap_or(0));
-    probes.sort_by_key(key);
-    let mut cases: Vec<Case> = vec![];
-    let mut i = 0;
-    while i < probes.len() {
-        let k = key(&probes[i]);
-        let mut j = i;
-        while j < probes.len() && key(&probes[j]) == k && j - i < 400 {
-            j += 1;
-        }
-        cases.push(Case { probes: probes[i..j].to_vec() });
-        i = j;
-    }
-    report.merge(engine::run_explicit(&check, &cfg, cases, 1, 16, findings));
     let cases = tier.pick(3000, 200_000);
     report.merge(engine::run_generated(&check, &cfg, cases, 4, 16, findings, 0));
     engine::finish(
